@@ -756,6 +756,16 @@ def judge_fault(res, ref):
             probs.append("healthy destination copy recorded but the request is not completed (half-applied update)")
         if dest_healthy and res["dest_bytes"] != res["src_bytes"]:
             probs.append("healthy destination copy recorded without the source's bytes at the destination")
+        # all or nothing, the post-add rules included: the index is what it was before the task, or what an undisturbed run
+        # leaves (copy record, completed request, autosync requests created, autoclean sources released)
+        if ref is not None and ref["after"]["req"] != ref["before"]["req"] or ref is not None and ref["after"]["copy"] != ref["before"]["copy"]:
+            same_before = a["copy"] == res["before"]["copy"] and a["req"] == res["before"]["req"]
+            same_done = a["copy"] == ref["after"]["copy"] and a["req"] == ref["after"]["req"]
+            if not same_before and not same_done:
+                diff = [x for x in a["req"] if x not in ref["after"]["req"]] + [x for x in ref["after"]["req"] if x not in a["req"]] + \
+                       [x for x in a["copy"] if x not in ref["after"]["copy"]] + [x for x in ref["after"]["copy"] if x not in a["copy"]]
+                probs.append(f"half-applied update: the index is neither what it was before the transfer nor what an undisturbed transfer "
+                             f"leaves; rows differing from the complete result: {diff[:4]}")
     if res["kind"].startswith("import"):
         # the import is all-or-nothing, and it is not lost: after the worker is replaced (event: the task re-queued itself;
         # request: the next pass finds the request still pending) the index equals that of an undisturbed import
